@@ -386,8 +386,10 @@ namespace ip {
 
 		if (m_bound_to == ip::udp::endpoint())
 		{
-			// the socket was not bound, bind to anything
-			bind(udp::endpoint(), ec);
+			// the socket was not bound, bind to anything (of the address family
+			// the socket was opened with)
+			bind(m_is_v4 ? udp::endpoint(ip::address_v4::any(), 0)
+				: udp::endpoint(ip::address_v6::any(), 0), ec);
 			if (ec) return 0;
 		}
 
